@@ -721,7 +721,7 @@ def reachdist(CIJ, ensure_binary=True):
     R, D, powr = reachdist2(CIJ, CIJpwr, R, D, n, powr, col, row)
 
     #'invert' CIJdist to get distances
-    D = powr - D + 1
+    D = (powr - D + 1).astype(float)
 
     # put inf if no path found
     D[D == n + 2] = np.inf
